@@ -345,21 +345,32 @@ def normalise(fs):
 _sk = [0]
 
 
-def skolemise_goal(goal):
-    """a universally quantified goal is proved for fresh constants (so that sums over the bound variable get unfolded)"""
+def skolemise_goal(goal, depth=0):
+    """universally quantified parts of the goal in positive position (at the top, as conjuncts, as disjuncts, as the conclusion of an
+    implication) are proved for fresh constants (so that sums over the bound variable get unfolded and hypotheses can be instantiated)"""
     g = goal
-    if z3.is_and(g) and any(z3.is_quantifier(c) and c.is_forall() for c in g.children()):
-        return z3.And([skolemise_goal(c) for c in g.children()])       # A and (forall j. B)  ==  forall j. (A and B)
-    for _ in range(4):
-        if z3.is_quantifier(g) and g.is_forall():
-            consts = []
-            for i in range(g.num_vars()):
-                _sk[0] += 1
-                consts.append(z3.Const('sk!%d!%s' % (_sk[0], g.var_name(i)), g.var_sort(i)))
-            # de-Bruijn order: variable 0 is the innermost (last) bound variable
-            g = z3.substitute_vars(g.body(), *reversed(consts))
-        else:
-            break
+    if depth > 6:
+        return g
+    if z3.is_quantifier(g) and g.is_forall():
+        consts = []
+        for i in range(g.num_vars()):
+            _sk[0] += 1
+            consts.append(z3.Const('sk!%d!%s' % (_sk[0], g.var_name(i)), g.var_sort(i)))
+        # de-Bruijn order: variable 0 is the innermost (last) bound variable
+        return skolemise_goal(z3.substitute_vars(g.body(), *reversed(consts)), depth + 1)
+    if z3.is_and(g) and any(_has_quant(c) for c in g.children()):
+        return z3.And([skolemise_goal(c, depth + 1) for c in g.children()])       # A and (forall j. B)  ==  forall j. (A and B)
+    if z3.is_or(g) and any(_has_quant(c) for c in g.children()):
+        return z3.Or([skolemise_goal(c, depth + 1) for c in g.children()])        # A or (forall j. B)   ==  forall j. (A or B)
+    if z3.is_implies(g) and _has_quant(g.arg(1)):
+        return z3.Implies(g.arg(0), skolemise_goal(g.arg(1), depth + 1))
+    if z3.is_not(g) and z3.is_quantifier(g.arg(0)) and g.arg(0).is_exists():
+        q = g.arg(0)
+        consts = []
+        for i in range(q.num_vars()):
+            _sk[0] += 1
+            consts.append(z3.Const('sk!%d!%s' % (_sk[0], q.var_name(i)), q.var_sort(i)))
+        return z3.Not(z3.substitute_vars(q.body(), *reversed(consts)))
     return g
 
 
@@ -398,35 +409,140 @@ def _consts_of(e):
     return out
 
 
-def _instances(hyps, consts):
-    """ground instances of the universally quantified hypotheses (one Int variable) at the goal's skolem constants: index terms
-    with arithmetic in them (a[32 + 30*j + j/10]) give the solver no usable trigger"""
-    out = []
-    for f in hyps:
-        if z3.is_quantifier(f) and f.is_forall() and f.num_vars() == 1 and f.var_sort(0) == z3.IntSort():
-            for c in consts:
-                out.append(z3.simplify(z3.substitute_vars(f.body(), c)))
+def _index_terms(g, consts):
+    """ground index terms of array reads in the (skolemised) goal that mention one of its skolem constants: a[off + n(sk)]"""
+    ids = set(c.get_id() for c in consts)
+    seen, out, todo = set(), [], [g]
+
+    def mentions(t):
+        st, sn = [t], set()
+        while st:
+            x = st.pop()
+            if x.get_id() in sn:
+                continue
+            sn.add(x.get_id())
+            if x.get_id() in ids:
+                return True
+            if z3.is_app(x):
+                st.extend(x.children())
+        return False
+    while todo:
+        x = todo.pop()
+        if x.get_id() in seen or z3.is_quantifier(x):
+            continue
+        seen.add(x.get_id())
+        if z3.is_app(x):
+            if x.decl().kind() == z3.Z3_OP_SELECT:
+                i = z3.simplify(x.arg(1))
+                if i.sort() == z3.IntSort() and not z3.is_int_value(i) and not z3.is_const(i) and mentions(i) and not any(i.eq(o) for o in out):
+                    out.append(i)
+            todo.extend(x.children())
     return out
 
 
-def query_formulas(ob, fuel=1):
+def _ground(f, consts, new, depth=0):
+    """a WEAKENING of hypothesis f: universally quantified parts in positive position are replaced by their instances at `consts`
+    (index terms with arithmetic give the solver no usable trigger), existentially quantified parts in positive position by a fresh
+    witness constant (collected in `new`)"""
+    if depth > 6:
+        return f
+    if z3.is_quantifier(f):
+        if f.num_vars() != 1 or f.var_sort(0) != z3.IntSort():
+            return f
+        if f.is_forall():
+            if not consts:
+                return z3.BoolVal(True)
+            return z3.And([_ground(z3.substitute_vars(f.body(), c), consts, new, depth + 1) for c in consts])
+        if f.is_exists():
+            _sk[0] += 1
+            c = z3.Const('wit!%d!%s' % (_sk[0], f.var_name(0)), z3.IntSort())
+            new.append(c)
+            return _ground(z3.substitute_vars(f.body(), c), consts, new, depth + 1)
+        return f
+    if z3.is_and(f):
+        return z3.And([_ground(c, consts, new, depth + 1) for c in f.children()])
+    if z3.is_or(f):
+        return z3.Or([_ground(c, consts, new, depth + 1) for c in f.children()])
+    if z3.is_implies(f):
+        return z3.Implies(f.arg(0), _ground(f.arg(1), consts, new, depth + 1))
+    return f
+
+
+def _has_quant(f, seen=None):
+    seen = set() if seen is None else seen
+    if f.get_id() in seen:
+        return False
+    seen.add(f.get_id())
+    if z3.is_quantifier(f):
+        return True
+    return any(_has_quant(c, seen) for c in f.children()) if z3.is_app(f) else False
+
+
+def _instances(hyps, consts):
+    """two rounds: instances at the goal's skolem constants, then also at the witnesses those instances produced"""
+    qh = [f for f in hyps if _has_quant(f)]
+    if not qh or not consts:
+        return []
+    new = []
+    out = [z3.simplify(_ground(f, consts, new)) for f in qh]
+    if new:
+        more = []
+        out += [z3.simplify(_ground(f, new[:6], more)) for f in qh]
+    return [f for f in out if not z3.is_true(f)]
+
+
+def query_formulas(ob, fuel=1, selectors=None, ground=True):
+    """the formulas of one query: path condition, negated (skolemised) goal, ground instances of quantified hypotheses, unfolding
+    and definitional axioms.  With `selectors` (a list that is filled in) a conjunctive goal c1 & .. & cn is negated as the clauses
+    sel_i -> not c_i, so that ONE prepared solver can be asked about each conjunct under the assumption sel_i"""
     g0 = z3.simplify(ob.goal)
     n0 = _sk[0]
     sg = skolemise_goal(g0)
-    neg = z3.Not(sg)
-    base = [z3.simplify(f) for f in list(ob.pc) + [neg]]
-    if _sk[0] > n0:
-        consts = [c for c in _consts_of(sg) if c.decl().name().startswith('sk!') and c.sort() == z3.IntSort()]
+    negs = [z3.Not(sg)]
+    if selectors is not None:
+        parts = _conjuncts(z3.simplify(sg))
+        if len(parts) < 2:
+            return None
+        negs = []
+        for i, c in enumerate(parts):
+            _sk[0] += 1
+            b = z3.Bool('sel!%d' % _sk[0])
+            selectors.append((b, c))
+            negs.append(z3.Or(z3.Not(b), z3.Not(c)))
+    base = [z3.simplify(f) for f in list(ob.pc)] + negs
+    consts = [c for c in _consts_of(sg) if c.decl().name().startswith('sk!') and c.sort() == z3.IntSort()] if ground else []
+    if consts:
+        consts = consts[:4] + [t for t in _index_terms(sg, consts) if not any(t.eq(c) for c in consts)][:4]
         hyps = []
-        for f in base[:-1]:
+        for f in base[:len(base) - len(negs)]:
             hyps.extend(f.children() if z3.is_and(f) else [f])
-        base = base + _instances(hyps, consts[:6])[:80]
+        base = base + _instances(hyps, consts)
     lower = 'no-rmax-lower' not in (ob.hints or [])
     ax = unfold_all(base, fuel, lower)
     dx = def_axioms(base + ax)
     if dx:
         ax = ax + dx + unfold_all(dx, 1, lower)
     return base + ax + uf_axioms(base + ax)
+
+
+def _conjuncts(g):
+    """c1 & .. & cn, also under hypotheses:  P -> (A & B)  gives  P -> A, P -> B"""
+    hyp = []
+    for _ in range(3):
+        if z3.is_implies(g):
+            hyp.append(g.arg(0))
+            g = g.arg(1)
+        elif z3.is_or(g) and g.num_args() == 2 and z3.is_and(g.arg(1)):
+            hyp.append(z3.Not(g.arg(0)))
+            g = g.arg(1)
+        else:
+            break
+    if not z3.is_and(g):
+        return [g] if not hyp else [z3.Implies(z3.And(hyp), g)]
+    out = []
+    for c in g.children():
+        out.extend(c.children() if z3.is_and(c) and not hyp else [c])
+    return [z3.Implies(z3.And(hyp), c) for c in out] if hyp else out
 
 
 def _check(fs, timeout_ms):
@@ -452,6 +568,40 @@ def _cli(smt, timeout_ms):
     return None
 
 
+def _selector_step(ob, g, timeout_ms, use_cli, zv, t0):
+    """a conjunctive goal, conjunct by conjunct on ONE prepared solver (selector literals); the few conjuncts that are not decided
+    within 3 s go through the full pipeline on their own"""
+    try:
+        sels = []
+        fsel = query_formulas(ob, 1, selectors=sels)
+        if fsel is not None and 1 < len(sels) <= 200:
+            fsel = normalise(fsel)
+            sv = z3.Solver()
+            for f in fsel:
+                sv.add(f)
+            todo = []
+            tlim = time.time() + 1.5 * timeout_ms / 1000.0
+            for i, (b, c) in enumerate(sels):
+                sv.set('timeout', 3000)
+                if time.time() > tlim or sv.check(b) != z3.unsat:
+                    todo.append(i)
+            left = todo
+            ok = len(left) <= 8
+            if ok:
+                import copy
+                for i in left:          # the few hard conjuncts: each on its own, with the full pipeline
+                    o2 = copy.copy(ob)
+                    o2.goal = sels[i][1]
+                    if discharge(o2, timeout_ms, use_cli, split=0)['verdict'] != 'proved':
+                        ok = False
+                        break
+            if ok:
+                return dict(verdict='proved', backend=zv + '+normalised+sel%d' % len(sels), time=time.time() - t0)
+    except z3.Z3Exception:
+        pass
+    return None
+
+
 def discharge(ob, timeout_ms=20000, use_cli=True, split=1):
     """dict(verdict, backend, time, ...)   verdict: proved | candidate | unknown"""
     t0 = time.time()
@@ -460,7 +610,7 @@ def discharge(ob, timeout_ms=20000, use_cli=True, split=1):
         return dict(verdict='proved', backend='syntactic', time=0.0)
     zv = 'z3-' + z3.get_version_string()
     cand = None
-    fs1 = query_formulas(ob, 1)
+    fs1 = query_formulas(ob, 1, ground=False)
     if ob.kind == 'canary':
         # vacuity guard: only a *proof* of False matters; two short attempts
         r, s = _check(fs1, 1500)
@@ -473,21 +623,56 @@ def discharge(ob, timeout_ms=20000, use_cli=True, split=1):
         if r2 == z3.unsat:
             return dict(verdict='proved', backend=zv + '+normalised', time=time.time() - t0)
         return dict(verdict='candidate' if r == z3.sat else 'unknown', backend=zv, time=time.time() - t0)
+    # 0. goals with many conjuncts (layout specs): selector step first, the joint query would only burn its time limit
+    _many = False
+    if split:
+        try:
+            _many = len(_conjuncts(z3.simplify(skolemise_goal(g)))) >= 20
+        except z3.Z3Exception:
+            _many = False
+        if _many:
+            try:
+                r, _s = _check(normalise(fs1), 3000)        # short joint attempt first
+                if r == z3.unsat:
+                    return dict(verdict='proved', backend=zv + '+normalised', time=time.time() - t0)
+            except z3.Z3Exception:
+                pass
+            r_ = _selector_step(ob, g, timeout_ms, use_cli, zv, t0)
+            if r_ is not None:
+                return r_
+    # grounded variant (instances of quantified hypotheses at the goal's skolem constants): only if it adds something
+    fg1 = query_formulas(ob, 1, ground=True)
+    grounded = len(fg1) != len(fs1)
     # 1. normalised query first: small, lambda-free, pure arithmetic (a weakening: unsat is a proof)
     fsn1 = None
     try:
         fsn1 = normalise(fs1)
-        r, s2 = _check(fsn1, max(2000, timeout_ms // 2))
+        r, s2 = _check(fsn1, 3000 if grounded else max(2000, timeout_ms // 2))
         if r == z3.unsat:
             return dict(verdict='proved', backend=zv + '+normalised', time=time.time() - t0)
     except z3.Z3Exception:
         pass
     # 2. direct query (keeps lambdas / congruence of sum terms)
-    r, s = _check(fs1, min(5000, timeout_ms))
+    r, s = _check(fs1, 2000 if grounded else min(5000, timeout_ms))
     if r == z3.unsat:
         return dict(verdict='proved', backend=zv, time=time.time() - t0)
     if r == z3.sat:
         cand = model_to_dict(s.model(), ob)
+    # 2g. the same two queries with the ground instances added
+    if grounded:
+        try:
+            r, s2 = _check(normalise(fg1), max(2000, timeout_ms // 2))
+            if r == z3.unsat:
+                return dict(verdict='proved', backend=zv + '+normalised+inst', time=time.time() - t0)
+        except z3.Z3Exception:
+            pass
+        r, s = _check(fg1, min(5000, timeout_ms))
+        if r == z3.unsat:
+            return dict(verdict='proved', backend=zv + '+inst', time=time.time() - t0)
+    if split and not _many:
+        r_ = _selector_step(ob, g, timeout_ms, use_cli, zv, t0)
+        if r_ is not None:
+            return r_
     # 2b. a conjunctive goal is proved conjunct by conjunct (each query keeps the whole path condition)
     gs = g
     if split and not z3.is_and(g):
